@@ -140,9 +140,9 @@ Section Reader.
     intros [Hn Hargs] H. destruct H as [[n args anns] ka kn Ha Hk]. cbn [m_name m_args m_anns] in *.
     cbn. unfold check_attrs, req_attr, get_attr. cbn. rewrite dec_enc. cbn. unfold parse_name. rewrite Hn. cbn.
     rewrite map_app.
-    pose proof (args_ok ka (map E kn) args (filter_none_map _ _ RAnn kn anns Hk RAnn_el eq_refl) Hargs Ha) as Hy.
+    pose proof (args_ok ka (map E kn) args (filter_none_map (B "arg") (B "annotation") RAnn kn anns Hk RAnn_el eq_refl) Hargs Ha) as Hy.
     cbn in Hy. rewrite Hy. cbn.
-    pose proof (anns_ok (map E ka) kn [] anns (filter_none_map _ _ _ ka args Ha RArg_el eq_refl) eq_refl Hk) as Hx.
+    pose proof (anns_ok (map E ka) kn [] anns (filter_none_map (B "annotation") (B "arg") _ ka args Ha RArg_el eq_refl) eq_refl Hk) as Hx.
     rewrite app_nil_r in Hx. cbn in Hx. rewrite Hx. reflexivity.
   Qed.
 
@@ -151,9 +151,9 @@ Section Reader.
     intros [Hn Hargs] H. destruct H as [[n args anns] ka kn Ha Hk]. cbn [s_name s_args s_anns] in *.
     cbn. unfold check_attrs, req_attr, get_attr. cbn. rewrite dec_enc. cbn. unfold parse_name. rewrite Hn. cbn.
     rewrite map_app.
-    pose proof (args_ok ka (map E kn) args (filter_none_map _ _ RAnn kn anns Hk RAnn_el eq_refl) Hargs Ha) as Hy.
+    pose proof (args_ok ka (map E kn) args (filter_none_map (B "arg") (B "annotation") RAnn kn anns Hk RAnn_el eq_refl) Hargs Ha) as Hy.
     cbn in Hy. rewrite Hy. cbn.
-    pose proof (anns_ok (map E ka) kn [] anns (filter_none_map _ _ _ ka args Ha RArg_el eq_refl) eq_refl Hk) as Hx.
+    pose proof (anns_ok (map E ka) kn [] anns (filter_none_map (B "annotation") (B "arg") _ ka args Ha RArg_el eq_refl) eq_refl Hk) as Hx.
     rewrite app_nil_r in Hx. cbn in Hx. rewrite Hx. reflexivity.
   Qed.
 
@@ -171,9 +171,7 @@ Section Reader.
   Proof.
     intros (Hn & Hm & Hp & Hs) H. destruct H as [[n ms ps ss anns] km kp ks kn Rm Rp Rs Rn].
     cbn [i_name i_methods i_props i_signals i_anns] in *.
-    cbn. unfold check_attrs, req_attr, get_attr. cbn. rewrite dec_enc. cbn. unfold parse_name. rewrite Hn. cbn.
-    rewrite !map_app.
-    set (Em := map E km). set (Ep := map E kp). set (Es := map E ks). set (En := map E kn).
+    pose (Em := map E km). pose (Ep := map E kp). pose (Es := map E ks). pose (En := map E kn).
     assert (Fm : forall k, lbeq (local_name (B "method")) k = false -> filter (elem_named k) Em = [])
       by (intros k Hk; apply (filter_none_map k _ _ km ms Rm RMethod_el Hk)).
     assert (Fp : forall k, lbeq (local_name (B "property")) k = false -> filter (elem_named k) Ep = [])
@@ -182,35 +180,34 @@ Section Reader.
       by (intros k Hk; apply (filter_none_map k _ _ ks ss Rs RSignal_el Hk)).
     assert (Fn : forall k, lbeq (local_name (B "annotation")) k = false -> filter (elem_named k) En = [])
       by (intros k Hk; apply (filter_none_map k _ _ kn anns Rn RAnn_el Hk)).
-    (* methods *)
-    rewrite (children_group (B "method") of_method' [] Em (Ep ++ Es ++ En) ms eq_refl eq_refl);
-      [|rewrite !filter_app, Fp, Fs, Fn by reflexivity; reflexivity
-       |apply (forall2_el _ _ _ _ Rm), RMethod_el
-       |apply (forall2_enc_wf _ _ _ _ _ Rm Hm), rd_method].
-    cbn [bind].
-    (* properties *)
-    rewrite (children_group (B "property") of_prop' Em Ep (Es ++ En) ps eq_refl);
-      [|apply Fm; reflexivity
-       |rewrite !filter_app, Fs, Fn by reflexivity; reflexivity
-       |apply (forall2_el _ _ _ _ Rp), RProp_el
-       |apply (forall2_enc_wf _ _ _ _ _ Rp Hp), rd_prop].
-    cbn [bind].
-    (* signals *)
-    replace (Em ++ Ep ++ Es ++ En) with ((Em ++ Ep) ++ Es ++ En) by (now rewrite <- app_assoc).
-    rewrite (children_group (B "signal") of_signal' (Em ++ Ep) Es En ss eq_refl);
-      [|rewrite filter_app, Fm, Fp by reflexivity; reflexivity
-       |apply Fn; reflexivity
-       |apply (forall2_el _ _ _ _ Rs), RSignal_el
-       |apply (forall2_enc_wf _ _ _ _ _ Rs Hs), rd_signal].
-    cbn [bind].
-    (* annotations *)
-    replace ((Em ++ Ep) ++ Es ++ En) with ((Em ++ Ep ++ Es) ++ En ++ []) by (now rewrite app_nil_r, <- !app_assoc).
-    rewrite (children_group (B "annotation") of_ann' (Em ++ Ep ++ Es) En [] anns eq_refl);
-      [|rewrite !filter_app, Fm, Fp, Fs by reflexivity; reflexivity
-       |reflexivity
-       |apply (forall2_el _ _ _ _ Rn), RAnn_el
-       |apply (forall2_enc _ _ _ _ Rn), rd_ann].
-    reflexivity.
+    assert (H1 : children (B "method") of_method' (Em ++ Ep ++ Es ++ En) = Ok ms).
+    { apply (children_group (B "method") of_method' [] Em (Ep ++ Es ++ En) ms eq_refl eq_refl).
+      - rewrite !filter_app, Fp, Fs, Fn by reflexivity. reflexivity.
+      - apply (forall2_el _ _ _ _ Rm), RMethod_el.
+      - apply (forall2_enc_wf _ _ _ _ _ Rm Hm), rd_method. }
+    assert (H2 : children (B "property") of_prop' (Em ++ Ep ++ Es ++ En) = Ok ps).
+    { apply (children_group (B "property") of_prop' Em Ep (Es ++ En) ps eq_refl).
+      - apply Fm; reflexivity.
+      - rewrite !filter_app, Fs, Fn by reflexivity. reflexivity.
+      - apply (forall2_el _ _ _ _ Rp), RProp_el.
+      - apply (forall2_enc_wf _ _ _ _ _ Rp Hp), rd_prop. }
+    assert (H3 : children (B "signal") of_signal' (Em ++ Ep ++ Es ++ En) = Ok ss).
+    { replace (Em ++ Ep ++ Es ++ En) with ((Em ++ Ep) ++ Es ++ En) by (now rewrite <- app_assoc).
+      apply (children_group (B "signal") of_signal' (Em ++ Ep) Es En ss eq_refl).
+      - rewrite filter_app, Fm, Fp by reflexivity. reflexivity.
+      - apply Fn; reflexivity.
+      - apply (forall2_el _ _ _ _ Rs), RSignal_el.
+      - apply (forall2_enc_wf _ _ _ _ _ Rs Hs), rd_signal. }
+    assert (H4 : children (B "annotation") of_ann' (Em ++ Ep ++ Es ++ En) = Ok anns).
+    { replace (Em ++ Ep ++ Es ++ En) with ((Em ++ Ep ++ Es) ++ En ++ []) by (now rewrite app_nil_r, <- !app_assoc).
+      apply (children_group (B "annotation") of_ann' (Em ++ Ep ++ Es) En [] anns eq_refl).
+      - rewrite !filter_app, Fm, Fp, Fs by reflexivity. reflexivity.
+      - reflexivity.
+      - apply (forall2_el _ _ _ _ Rn), RAnn_el.
+      - apply (forall2_enc _ _ _ _ Rn), rd_ann. }
+    clear Fm Fp Fs Fn. subst Em Ep Es En. cbn in H1, H2, H3, H4.
+    cbn. unfold check_attrs, req_attr, get_attr. cbn. rewrite dec_enc. cbn. unfold parse_name. rewrite Hn. cbn.
+    rewrite !map_app, H1. cbn. rewrite H2. cbn. rewrite H3. cbn. rewrite H4. reflexivity.
   Qed.
 
   (* the nested-node loop of of_node is map_res over the `node` children *)
@@ -242,3 +239,423 @@ Section Reader.
     now rewrite node_loop.
   Qed.
 End Reader.
+
+(* ---------------------------------------------------------------- induction over nested nodes / infosets *)
+Section NodeInd.
+  Variable sigT : Type.
+  Variable P : node sigT -> Prop.
+  Hypothesis Hnode : forall name ifs ns, Forall P ns -> P (Node sigT name ifs ns).
+  Fixpoint node_ind' (n : node sigT) : P n :=
+    match n with
+    | Node _ name ifs ns =>
+        Hnode name ifs ns ((fix go (l : list (node sigT)) : Forall P l :=
+                              match l with [] => Forall_nil P | x :: r => Forall_cons x (node_ind' x) (go r) end) ns)
+    end.
+End NodeInd.
+
+Section XmlInd.
+  Variable P : xml -> Prop.
+  Hypothesis Htext : forall s, P (Text s).
+  Hypothesis Helem : forall n a kids, Forall P kids -> P (Elem n a kids).
+  Fixpoint xml_ind' (t : xml) : P t :=
+    match t with
+    | Text s => Htext s
+    | Elem n a kids =>
+        Helem n a kids ((fix go (l : list xml) : Forall P l :=
+                           match l with [] => Forall_nil P | x :: r => Forall_cons x (xml_ind' x) (go r) end) kids)
+    end.
+End XmlInd.
+
+Lemma enc_tree_id t : enc_tree (fun x => x) t = t.
+Proof.
+  induction t as [s|n a kids IH] using xml_ind'; cbn; [reflexivity|]. f_equal.
+  - induction a as [|[k v] a IHa]; cbn; [reflexivity|]. now rewrite IHa.
+  - induction IH as [|x l Hx _ IHl]; cbn; [reflexivity|]. now rewrite Hx, IHl.
+Qed.
+
+Section RoundTrip.
+  Variable sigT : Type.
+  Variable sig_parse : bytes -> option sigT.
+  Variable sig_show : sigT -> bytes.
+  Variable valid_member valid_interface valid_property : bytes -> bool.
+
+  Notation wf := (wf_node sigT sig_show sig_parse valid_member valid_interface valid_property).
+  Notation R := (RNode sigT sig_show).
+  Notation rd dec := (of_node sigT sig_parse valid_member valid_interface valid_property dec).
+  Notation wr := (to_tree sigT sig_show).
+
+  Lemma wf_all (ns : list (node sigT)) :
+    (fix all (l : list (node sigT)) : Prop := match l with [] => True | x :: r => wf x /\ all r end) ns <-> Forall (fun x => wf x) ns.
+  Proof.
+    induction ns as [|x r IH]; [split; [constructor|exact (fun _ => I)]|]. split.
+    - intros [H1 H2]. constructor; [exact H1|now apply IH].
+    - intro H. inversion H; subst. split; [assumption|now apply IH].
+  Qed.
+
+  (* ---- the reader returns d on whatever represents d ---- *)
+  Section Rd.
+    Variables (enc : bytes -> bytes) (dec : bytes -> res xerr bytes).
+    Hypothesis dec_enc : forall s, dec (enc s) = Ok s.
+
+    Theorem reader_correct d : forall tag t, wf d -> R tag t d -> rd dec (enc_tree enc t) = Ok d.
+    Proof.
+      induction d as [name ifs ns IH] using node_ind'. intros tag t Hwf Hr.
+      cbn [wf_node] in Hwf. destruct Hwf as [Hifs Hns]. apply wf_all in Hns.
+      inversion Hr as [tag' name' ifs' ns' ki kn Ri Rn]; subst. cbn [enc_tree]. rewrite of_node_unfold.
+      assert (Hn : Forall2 (fun t d => rd dec t = Ok d) (map (enc_tree enc) kn) ns).
+      { clear Hr Ri. induction Rn as [|x d kn ns Hx _ IHn]; cbn; [constructor|].
+        inversion IH; subst. inversion Hns; subst. constructor; [eauto|]. apply IHn; assumption. }
+      assert (Eln : Forall (is_el (B "node")) (map (enc_tree enc) kn)).
+      { apply (forall2_el enc (R (B "node")) (B "node") kn ns Rn). intros x d. apply RNode_el. }
+      assert (Eli : Forall (is_el (B "interface")) (map (enc_tree enc) ki)).
+      { apply (forall2_el enc _ (B "interface") ki ifs Ri). apply RIface_el. }
+      assert (H1 : children (B "interface") (of_iface sigT sig_parse valid_member valid_interface valid_property dec)
+                     (map (enc_tree enc) (ki ++ kn)) = Ok ifs).
+      { rewrite map_app.
+        apply (children_group (B "interface") _ [] (map (enc_tree enc) ki) (map (enc_tree enc) kn) ifs eq_refl eq_refl).
+        - apply (filter_none (B "interface") (B "node")); [exact Eln|reflexivity].
+        - exact Eli.
+        - apply (forall2_enc_wf enc _ _ _ _ _ Ri Hifs). intros x i Hw Hx.
+          now apply (rd_iface sigT sig_parse sig_show valid_member valid_interface valid_property enc dec dec_enc). }
+      assert (H2 : children (B "node") (rd dec) (map (enc_tree enc) (ki ++ kn)) = Ok ns).
+      { rewrite map_app. replace (map (enc_tree enc) kn) with (map (enc_tree enc) kn ++ []) by apply app_nil_r.
+        apply (children_group (B "node") _ (map (enc_tree enc) ki) (map (enc_tree enc) kn) [] ns eq_refl).
+        - apply (filter_none (B "node") (B "interface")); [exact Eli|reflexivity].
+        - reflexivity.
+        - exact Eln.
+        - exact Hn. }
+      rewrite H1, H2. destruct name as [v|]; cbn; unfold check_attrs, get_attr; cbn; rewrite ?dec_enc; reflexivity.
+    Qed.
+  End Rd.
+
+  (* ---- the writer's infoset represents d, when no optional is absent ---- *)
+  Lemma forall2_map {A} (Rl : xml -> A -> Prop) (f : A -> xml) l :
+    (forall x, In x l -> Rl (f x) x) -> Forall2 Rl (map f l) l.
+  Proof. induction l as [|x l IH]; intro H; cbn; constructor; [apply H; now left|apply IH; intros y Hy; apply H; now right]. Qed.
+
+  Lemma wr_ann a : RAnn (t_ann a) a.
+  Proof. constructor. Qed.
+
+  Lemma wr_arg a : arg_none sigT a = false -> RArg sigT sig_show (t_arg sigT sig_show a) a.
+  Proof.
+    unfold arg_none, t_arg. intro H. destruct a as [[n|] ty [d|] anns]; cbn in H; try discriminate.
+    pose proof (RArg_i sigT sig_show (mkArg sigT (Some n) ty (Some d) anns) (map t_ann anns)
+                  (forall2_map RAnn t_ann anns (fun x _ => wr_ann x))) as Hx.
+    destruct d; exact Hx.
+  Qed.
+
+  Lemma existsb_false {A} (f : A -> bool) l : existsb f l = false -> forall x, In x l -> f x = false.
+  Proof.
+    intros H x Hx. destruct (f x) eqn:E; [|reflexivity].
+    assert (existsb f l = true) by (apply existsb_exists; eauto). congruence.
+  Qed.
+
+  Lemma wr_method m : existsb (arg_none sigT) (m_args _ m) = false -> RMethod sigT sig_show (t_method sigT sig_show m) m.
+  Proof.
+    intro H. destruct m as [n args anns]. unfold t_method. cbn [m_name m_args m_anns] in *.
+    apply (RMethod_i sigT sig_show (mkMethod sigT n args anns)).
+    - apply forall2_map. intros a Ha. apply wr_arg. exact (existsb_false _ _ H a Ha).
+    - apply forall2_map. intros; apply wr_ann.
+  Qed.
+
+  Lemma wr_signal m : existsb (arg_none sigT) (s_args _ m) = false -> RSignal sigT sig_show (t_signal sigT sig_show m) m.
+  Proof.
+    intro H. destruct m as [n args anns]. unfold t_signal. cbn [s_name s_args s_anns] in *.
+    apply (RSignal_i sigT sig_show (mkSignal sigT n args anns)).
+    - apply forall2_map. intros a Ha. apply wr_arg. exact (existsb_false _ _ H a Ha).
+    - apply forall2_map. intros; apply wr_ann.
+  Qed.
+
+  Lemma wr_prop p : RProp sigT sig_show (t_prop sigT sig_show p) p.
+  Proof.
+    destruct p as [n ty acc anns]. unfold t_prop. cbn [p_name p_ty p_access p_anns].
+    pose proof (RProp_i sigT sig_show (mkProp sigT n ty acc anns) (map t_ann anns)
+                  (forall2_map RAnn t_ann anns (fun x _ => wr_ann x))) as Hx.
+    destruct acc; exact Hx.
+  Qed.
+
+  Lemma wr_iface i : iface_none sigT i = false -> RIface sigT sig_show (t_iface sigT sig_show i) i.
+  Proof.
+    unfold iface_none. intro H. apply orb_false_iff in H as [Hm Hs]. destruct i as [n ms ps ss anns].
+    unfold t_iface. cbn [i_name i_methods i_props i_signals i_anns] in *.
+    apply (RIface_i sigT sig_show (mkIface sigT n ms ps ss anns)).
+    - apply forall2_map. intros m Hin. apply wr_method. exact (existsb_false _ _ Hm m Hin).
+    - apply forall2_map. intros; apply wr_prop.
+    - apply forall2_map. intros m Hin. apply wr_signal. exact (existsb_false _ _ Hs m Hin).
+    - apply forall2_map. intros; apply wr_ann.
+  Qed.
+
+  Theorem writer_conforms d : forall tag, node_none sigT d = false -> R tag (t_node sigT sig_show tag d) d.
+  Proof.
+    induction d as [name ifs ns IH] using node_ind'. intros tag H. cbn [node_none] in H.
+    apply orb_false_iff in H as [H Hns]. apply orb_false_iff in H as [Hname Hifs].
+    destruct name as [v|]; [|discriminate]. cbn [t_node opt_text].
+    apply (RNode_i sigT sig_show tag (Some v) ifs ns).
+    - apply forall2_map. intros i Hin. apply wr_iface. exact (existsb_false _ _ Hifs i Hin).
+    - apply forall2_map. intros x Hin. rewrite Forall_forall in IH. apply IH; [exact Hin|].
+      exact (existsb_false _ _ Hns x Hin).
+  Qed.
+
+  (* ---- the round trip on infosets ---- *)
+  Theorem roundtrip_partial d : wf d -> ~ Known_C34 sigT d -> rd (fun v => Ok v) (wr d) = Ok d.
+  Proof.
+    intros Hwf Hk. unfold Known_C34 in Hk. assert (Hn : node_none sigT d = false) by (destruct (node_none sigT d); congruence).
+    rewrite <- (enc_tree_id (wr d)).
+    apply (reader_correct (fun x => x) (fun v => Ok v) (fun s => eq_refl) d (B "Node") (wr d) Hwf).
+    now apply writer_conforms.
+  Qed.
+End RoundTrip.
+
+(* ---------------------------------------------------------------- text level: the tokenizer by contract *)
+(* the raw printer: what quick-xml's writer emits for an infoset whose attribute values are already escaped *)
+Definition print_attr_raw (kv : bytes * bytes) : bytes := B " " ++ fst kv ++ B "=""" ++ snd kv ++ B """".
+Fixpoint print_raw (t : xml) : bytes :=
+  match t with
+  | Text s => s
+  | Elem n attrs kids =>
+      B "<" ++ n ++ concat (map print_attr_raw attrs) ++
+      match kids with
+      | [] => B "/>"
+      | _ => B ">" ++ concat (map print_raw kids) ++ B "</" ++ n ++ B ">"
+      end
+  end.
+
+Lemma print_is_raw t : print t = print_raw (enc_tree escape t).
+Proof.
+  induction t as [s|n a kids IH] using xml_ind'; cbn [print print_raw enc_tree]; [reflexivity|].
+  assert (Ha : concat (map print_attr a) = concat (map print_attr_raw (map (fun kv => (fst kv, escape (snd kv))) a))).
+  { induction a as [|[k v] a IHa]; cbn; [reflexivity|]. now rewrite IHa. }
+  assert (Hk : concat (map print kids) = concat (map print_raw (map (enc_tree escape) kids))).
+  { induction IH as [|x l Hx _ IHl]; cbn; [reflexivity|]. now rewrite Hx, IHl. }
+  rewrite Ha. destruct kids as [|k0 kids]; [reflexivity|]. cbn [map] in *. now rewrite Hk.
+Qed.
+
+(* trees the tokenizer is assumed to read back: alphanumeric names, attribute values free of the double
+   quote and of '<', no text nodes *)
+Definition name_ok (n : bytes) : bool := match n with [] => false | _ => forallb is_alphanum n end.
+Definition value_ok (v : bytes) : bool := forallb (fun c => negb (beq c quote) && negb (beq c "<"%byte)) v.
+Fixpoint printable (t : xml) : bool :=
+  match t with
+  | Text _ => false
+  | Elem n attrs kids =>
+      name_ok n && forallb (fun kv => name_ok (fst kv) && value_ok (snd kv)) attrs &&
+      (fix all (l : list xml) : bool := match l with [] => true | x :: r => printable x && all r end) kids
+  end.
+
+Lemma printable_all l :
+  (fix all (l : list xml) : bool := match l with [] => true | x :: r => printable x && all r end) l = forallb printable l.
+Proof. induction l as [|x r IH]; [reflexivity|]. cbn. now rewrite IH. Qed.
+
+Lemma printable_elem n attrs kids :
+  printable (Elem n attrs kids) =
+  name_ok n && forallb (fun kv => name_ok (fst kv) && value_ok (snd kv)) attrs && forallb printable kids.
+Proof. cbn [printable]. now rewrite printable_all. Qed.
+
+Section Text.
+  Variable sigT : Type.
+  Variable sig_parse : bytes -> option sigT.
+  Variable sig_show : sigT -> bytes.
+  Variable valid_member valid_interface valid_property : bytes -> bool.
+
+  Notation wf := (wf_node sigT sig_show sig_parse valid_member valid_interface valid_property).
+  Notation rd dec := (of_node sigT sig_parse valid_member valid_interface valid_property dec).
+  Notation wr := (to_tree sigT sig_show).
+  Notation X := (enc_tree escape).
+
+  Lemma value_ok_escape v : value_ok (escape v) = true.
+  Proof. apply escape_clean. Qed.
+
+  Lemma forallb_map_printable {A} (f : A -> xml) l : (forall x, printable (X (f x)) = true) -> forallb printable (map X (map f l)) = true.
+  Proof. intro H. induction l as [|x l IH]; cbn; [reflexivity|]. now rewrite H, IH. Qed.
+
+  Lemma pr_ann a : printable (X (t_ann a)) = true.
+  Proof. unfold t_ann. cbn [enc_tree map fst snd]. rewrite printable_elem. cbn. now rewrite !value_ok_escape. Qed.
+  Lemma pr_arg a : printable (X (t_arg sigT sig_show a)) = true.
+  Proof.
+    unfold t_arg. cbn [enc_tree map fst snd]. rewrite printable_elem. cbn [forallb fst snd]. rewrite !value_ok_escape.
+    rewrite (forallb_map_printable t_ann _ pr_ann). reflexivity.
+  Qed.
+  Lemma pr_method m : printable (X (t_method sigT sig_show m)) = true.
+  Proof.
+    unfold t_method. cbn [enc_tree map fst snd]. rewrite printable_elem. cbn [forallb fst snd]. rewrite !value_ok_escape.
+    rewrite !map_app, forallb_app, (forallb_map_printable _ _ pr_arg), (forallb_map_printable t_ann _ pr_ann). reflexivity.
+  Qed.
+  Lemma pr_signal m : printable (X (t_signal sigT sig_show m)) = true.
+  Proof.
+    unfold t_signal. cbn [enc_tree map fst snd]. rewrite printable_elem. cbn [forallb fst snd]. rewrite !value_ok_escape.
+    rewrite !map_app, forallb_app, (forallb_map_printable _ _ pr_arg), (forallb_map_printable t_ann _ pr_ann). reflexivity.
+  Qed.
+  Lemma pr_prop p : printable (X (t_prop sigT sig_show p)) = true.
+  Proof.
+    unfold t_prop. cbn [enc_tree map fst snd]. rewrite printable_elem. cbn [forallb fst snd]. rewrite !value_ok_escape.
+    rewrite (forallb_map_printable t_ann _ pr_ann). reflexivity.
+  Qed.
+  Lemma pr_iface i : printable (X (t_iface sigT sig_show i)) = true.
+  Proof.
+    unfold t_iface. cbn [enc_tree map fst snd]. rewrite printable_elem. cbn [forallb fst snd]. rewrite !value_ok_escape.
+    rewrite !map_app, !forallb_app, (forallb_map_printable _ _ pr_method), (forallb_map_printable _ _ pr_prop),
+      (forallb_map_printable _ _ pr_signal), (forallb_map_printable t_ann _ pr_ann). reflexivity.
+  Qed.
+  Lemma pr_node d : forall tag, name_ok tag = true -> printable (X (t_node sigT sig_show tag d)) = true.
+  Proof.
+    induction d as [name ifs ns IH] using node_ind'. intros tag Ht. cbn [t_node enc_tree map fst snd].
+    rewrite printable_elem, Ht. cbn [forallb fst snd]. rewrite value_ok_escape.
+    rewrite !map_app, forallb_app, (forallb_map_printable _ _ pr_iface).
+    assert (Hn : forallb printable (map X (map (t_node sigT sig_show (B "node")) ns)) = true).
+    { induction IH as [|x l Hx _ IHl]; cbn [map forallb]; [reflexivity|]. now rewrite (Hx (B "node") eq_refl), IHl. }
+    rewrite Hn. reflexivity.
+  Qed.
+
+  (* quick-xml's tokenizer, by contract: it reads back what the raw printer wrote for a printable tree,
+     attribute values still escaped (the deserializer unescapes them on access) *)
+  Variable tokenize : bytes -> option xml.
+  Hypothesis tokenize_print : forall r, printable r = true -> tokenize (print_raw r) = Some r.
+
+  (* Node::try_from(&str) / from_reader: tokenize, then the derive's reader with unescape on access *)
+  Definition from_str (text : bytes) : res xerr (node sigT) :=
+    match tokenize text with Some r => rd unescape r | None => Err EXml end.
+
+  Theorem text_roundtrip_partial d : wf d -> ~ Known_C34 sigT d -> from_str (to_writer sigT sig_show d) = Ok d.
+  Proof.
+    intros Hwf Hk. unfold from_str, to_writer, to_tree. rewrite print_is_raw.
+    rewrite (tokenize_print _ (pr_node d (B "Node") eq_refl)).
+    assert (Hn : node_none sigT d = false) by (unfold Known_C34 in Hk; destruct (node_none sigT d); congruence).
+    apply (reader_correct sigT sig_parse sig_show valid_member valid_interface valid_property escape unescape
+             unescape_escape d (B "Node") (wr d) Hwf).
+    now apply writer_conforms.
+  Qed.
+End Text.
+
+(* ---------------------------------------------------------------- witnesses: an absent optional does not come back *)
+Section Refuted.
+  Variable sigT : Type.
+  Variable sig_parse : bytes -> option sigT.
+  Variable sig_show : sigT -> bytes.
+  Variable valid_member valid_interface valid_property : bytes -> bool.
+  Notation wf := (wf_node sigT sig_show sig_parse valid_member valid_interface valid_property).
+  Notation rd := (of_node sigT sig_parse valid_member valid_interface valid_property (fun v => Ok v)).
+  Notation wr := (to_tree sigT sig_show).
+
+  Definition d_noname : node sigT := Node sigT None [] [].
+
+  Lemma none_name_witness :
+    wf d_noname /\ wr d_noname = Elem (B "Node") [(B "name", [])] [] /\
+    rd (wr d_noname) = Ok (Node sigT (Some []) [] []) /\ Known_C34 sigT d_noname.
+  Proof. repeat split; try constructor. Qed.
+
+  Lemma none_option_refuted : exists d, wf d /\ rd (wr d) <> Ok d.
+  Proof. exists d_noname. split; [repeat constructor|]. cbn. discriminate. Qed.
+
+  (* an argument without direction (every signal argument in practice): the written document is rejected *)
+  Definition d_nodir (m : bytes) (s : sigT) : node sigT :=
+    Node sigT (Some (B "/")) [mkIface sigT (B "a.b") [] [] [mkSignal sigT m [mkArg sigT (Some (B "x")) s None []] []] []] [].
+
+  Lemma none_direction_rejected m s : rd (wr (d_nodir m s)) = Err EXml.
+  Proof.
+    unfold d_nodir, to_tree.
+    repeat (cbn; unfold children, check_attrs, get_attr, req_attr, parse_name, parse_sig).
+    destruct (valid_interface _); [|reflexivity].
+    repeat (cbn; unfold children, check_attrs, get_attr, req_attr, parse_name, parse_sig).
+    destruct (valid_member m); [|reflexivity].
+    repeat (cbn; unfold children, check_attrs, get_attr, req_attr, parse_name, parse_sig).
+    destruct (sig_parse (sig_show s)); reflexivity.
+  Qed.
+End Refuted.
+
+(* ---------------------------------------------------------------- every document the reader returns is well formed *)
+Section Parsed.
+  Variable sigT : Type.
+  Variable sig_parse : bytes -> option sigT.
+  Variable sig_show : sigT -> bytes.
+  Variable valid_member valid_interface valid_property : bytes -> bool.
+  Variable dec : bytes -> res xerr bytes.
+  (* C06: a parsed signature re-reads from its own text *)
+  Hypothesis sig_reparse : forall b s, sig_parse b = Some s -> sig_parse (sig_show s) = Some s.
+
+  Notation wf := (wf_node sigT sig_show sig_parse valid_member valid_interface valid_property).
+  Notation rd := (of_node sigT sig_parse valid_member valid_interface valid_property dec).
+
+  Ltac binv :=
+    repeat match goal with
+           | H : bind ?x _ = Ok _ |- _ =>
+               let E := fresh "E" in destruct x eqn:E; cbn [bind] in H; [|discriminate H|discriminate H]
+           end.
+
+  Lemma map_res_inv {A C} (f : A -> res xerr C) l : forall ds, map_res f l = Ok ds -> Forall2 (fun t d => f t = Ok d) l ds.
+  Proof.
+    induction l as [|x l IH]; intros ds H; cbn in H.
+    - injection H as <-. constructor.
+    - binv. injection H as <-. constructor; [assumption|now apply IH].
+  Qed.
+
+  Lemma children_inv {C} k (f : xml -> res xerr C) kids ds :
+    children k f kids = Ok ds -> Forall2 (fun t d => f t = Ok d) (filter (elem_named k) kids) ds.
+  Proof. unfold children. destruct (same_names _); [apply map_res_inv|discriminate]. Qed.
+
+  Lemma forall2_forall {A C} (f : A -> res xerr C) (W : C -> Prop) l ds :
+    Forall2 (fun t d => f t = Ok d) l ds -> (forall t d, In t l -> f t = Ok d -> W d) -> Forall W ds.
+  Proof.
+    induction 1 as [|t d l ds Ht _ IH]; intro H; constructor.
+    - apply (H t d); [now left|exact Ht].
+    - apply IH. intros t' d' Hin. apply H. now right.
+  Qed.
+
+  Lemma parse_sig_ok v s : parse_sig sigT sig_parse v = Ok s -> sig_ok sigT sig_show sig_parse s.
+  Proof. unfold parse_sig, sig_ok. destruct (sig_parse v) eqn:E; [|discriminate]. intro H. injection H as <-. eauto. Qed.
+
+  Lemma parse_name_ok valid v n : parse_name valid v = Ok n -> valid n = true.
+  Proof. unfold parse_name. destruct (valid v) eqn:E; [|discriminate]. intro H. now injection H as <-. Qed.
+
+  Lemma arg_wf t a : of_arg sigT sig_parse dec t = Ok a -> wf_arg sigT sig_show sig_parse a.
+  Proof.
+    unfold of_arg. destruct t as [n attrs kids|]; [|discriminate]. intro H. binv. injection H as <-.
+    unfold wf_arg. cbn. eapply parse_sig_ok; eassumption.
+  Qed.
+
+  Lemma args_wf kids args : children (B "arg") (of_arg sigT sig_parse dec) kids = Ok args ->
+    Forall (wf_arg sigT sig_show sig_parse) args.
+  Proof. intro H. apply children_inv in H. apply (forall2_forall _ _ _ _ H). intros t d _. apply arg_wf. Qed.
+
+  Lemma method_wf t m : of_method sigT sig_parse valid_member dec t = Ok m -> wf_method sigT sig_show sig_parse valid_member m.
+  Proof.
+    unfold of_method. destruct t as [n attrs kids|]; [|discriminate]. intro H. binv. injection H as <-.
+    split; cbn; [eapply parse_name_ok; eassumption|eapply args_wf; eassumption].
+  Qed.
+
+  Lemma signal_wf t m : of_signal sigT sig_parse valid_member dec t = Ok m -> wf_signal sigT sig_show sig_parse valid_member m.
+  Proof.
+    unfold of_signal. destruct t as [n attrs kids|]; [|discriminate]. intro H. binv. injection H as <-.
+    split; cbn; [eapply parse_name_ok; eassumption|eapply args_wf; eassumption].
+  Qed.
+
+  Lemma prop_wf t p : of_prop sigT sig_parse valid_property dec t = Ok p -> wf_prop sigT sig_show sig_parse valid_property p.
+  Proof.
+    unfold of_prop. destruct t as [n attrs kids|]; [|discriminate]. intro H. binv. injection H as <-.
+    split; cbn; [eapply parse_name_ok; eassumption|eapply parse_sig_ok; eassumption].
+  Qed.
+
+  Lemma iface_wf t i : of_iface sigT sig_parse valid_member valid_interface valid_property dec t = Ok i ->
+    wf_iface sigT sig_show sig_parse valid_member valid_interface valid_property i.
+  Proof.
+    unfold of_iface. destruct t as [n attrs kids|]; [|discriminate]. intro H. binv. injection H as <-.
+    repeat split; cbn.
+    - eapply parse_name_ok; eassumption.
+    - match goal with H : children (B "method") _ _ = Ok _ |- _ => apply children_inv in H; apply (forall2_forall _ _ _ _ H) end.
+      intros t d _. apply method_wf.
+    - match goal with H : children (B "property") _ _ = Ok _ |- _ => apply children_inv in H; apply (forall2_forall _ _ _ _ H) end.
+      intros t d _. apply prop_wf.
+    - match goal with H : children (B "signal") _ _ = Ok _ |- _ => apply children_inv in H; apply (forall2_forall _ _ _ _ H) end.
+      intros t d _. apply signal_wf.
+  Qed.
+
+  Theorem parsed_wf t : forall d, rd t = Ok d -> wf d.
+  Proof.
+    induction t as [s|n attrs kids IH] using xml_ind'; intros d H; [discriminate|].
+    rewrite of_node_unfold in H. binv. injection H as <-. cbn [wf_node]. split.
+    - match goal with H : children (B "interface") _ _ = Ok _ |- _ => apply children_inv in H; apply (forall2_forall _ _ _ _ H) end.
+      intros t d _. apply iface_wf.
+    - apply wf_all.
+      match goal with H : children (B "node") _ _ = Ok _ |- _ => apply children_inv in H; apply (forall2_forall _ _ _ _ H) end.
+      intros t d Hin Hd. rewrite Forall_forall in IH. apply (IH t); [|exact Hd]. apply filter_In in Hin. tauto.
+  Qed.
+End Parsed.
